@@ -103,6 +103,7 @@ type machine struct {
 	solFP    *solver
 	merging  int
 	curPos   string
+	testErrors []string
 }
 
 func (m *machine) get(fr *frame, key ssa.Value) value {
